@@ -24,6 +24,7 @@ package definition
 // What the container owes a runner (requires) and what a runner's invocation does to the trace (ensures).
 // A-CALLBACK: a runner does not write container-internal state.
 //@ method (ApplicationRunner).Run
+//@ terminates
 //@ property C13 C09
 //@ requires [runners-only-when-ready] Refreshed
 //@ requires [no-runner-after-failure] !Failed
@@ -50,6 +51,7 @@ package definition
 // Init methods (C05): AfterPropertiesSet strictly after the before-initialization processors, Init after
 // AfterPropertiesSet when the component has one; each advances the typestate of the component named CurName.
 //@ method (InitializingComponent).AfterPropertiesSet
+//@ terminates
 //@ property C05 C09
 //@ requires [after-before-processors] St[CurName] == 2
 //@ assigns St, ApsCalls, Failed
@@ -57,6 +59,7 @@ package definition
 //@ ensures [failure-recorded] Failed == (old(Failed) || result != nil)
 
 //@ method (InitializeComponent).Init
+//@ terminates
 //@ property C05 C09
 //@ requires [aps-then-init] St[CurName] == ite(implements(self, InitializingComponent), 3, 2)
 //@ assigns St, InitCalls, Failed
